@@ -349,6 +349,9 @@ func specLkAfter(kind, lk int) int {
 //@   ensures ok ==> v != nil
 //@   ensures !ok ==> v == nil && next == 0 && len(name) == 0
 //@   ensures $private ==> unchanged(m.mapping.Data)
+// ... and every record that lies inside the data and has a non-empty name is
+// accepted (names of up to 2^24-1 bytes; the writer uses at most 4096):
+//@   ensures $private ==> (ok <==> off >= m.hdrLen+hashOff && int64(off)+16 <= int64(len(m.mapping.Data)) && le32(m.mapping.Data, int(off)+8)&0xffffff != 0 && int64(off)+16+int64(le32(m.mapping.Data, int(off)+8)&0xffffff) <= int64(len(m.mapping.Data)))
 //@   modifies elems(m.mapping.Data)
 
 // writeEntryAt writes name length (tagged 0xff) and name; the value cell is not written.
